@@ -194,7 +194,7 @@ func TestVerifC07V2(t *testing.T) {
 		em.BeginCase(id, c.desc)
 
 		hostUK := c12HostKey.PublicKey().UnlockKey()
-		exUC := contractUnlockConditions(hostUK, c12RenterKey.PublicKey().UnlockKey())
+		exUC := c12UC(hostUK, c12RenterKey.PublicKey().UnlockKey())
 		ids := newC12IDs(exUC.UnlockHash())
 		existing := types.FileContractRevision{ParentID: types.FileContractID{1, 2, 3}, UnlockConditions: exUC}
 		existing.FileContract = ids.build(c.ex)
